@@ -21,7 +21,7 @@ import json
 import os
 import re
 from functools import lru_cache
-from typing import Any, Callable, Dict, Optional
+from typing import Any, Callable, Dict, List, Optional
 
 PINNED_PATH = os.path.join(os.path.dirname(os.path.abspath(__file__)), "pinned.json")
 _pinned: Optional[dict] = None
@@ -83,9 +83,10 @@ def _concat_parts(e: ast.expr):
 class ExprCanon(ast.NodeTransformer):
     """expression-level canonical forms; `const(name)` returns (True, value) for a foldable constant"""
 
-    def __init__(self, const: Callable[[str], Optional[tuple]], bound: Optional[set] = None):
+    def __init__(self, const: Callable[[str], Optional[tuple]], bound: Optional[set] = None, sigs: Optional[Callable[[str, bool], Optional[List[str]]]] = None):
         self.const = const
         self.bound = bound or set()
+        self.sigs = sigs
 
     def visit_Name(self, node):
         if isinstance(node.ctx, ast.Load) and node.id not in self.bound:
@@ -108,8 +109,38 @@ class ExprCanon(ast.NodeTransformer):
 
     _SETOPS = {"union": ast.BitOr, "difference": ast.Sub, "intersection": ast.BitAnd, "symmetric_difference": ast.BitXor}
 
+    def _keywordise(self, node):
+        """positional arguments of a call to a repository function -> keyword arguments, in signature order"""
+        f = node.func
+        if self.sigs is None or not node.args or any(isinstance(a, ast.Starred) for a in node.args) or any(k.arg is None for k in node.keywords):
+            return node
+        if isinstance(f, ast.Name):
+            name, is_attr = f.id, False
+            if name in self.bound:
+                return node
+        elif isinstance(f, ast.Attribute):
+            name, is_attr = f.attr, True
+        else:
+            return node
+        params = self.sigs(name, is_attr)
+        if params is None or len(node.args) > len(params):
+            return node
+        given = {k.arg for k in node.keywords}
+        new_kw = []
+        for p, a in zip(params, node.args):
+            if p in given:
+                return node
+            new_kw.append(ast.keyword(arg=p, value=a))
+        order = {p: i for i, p in enumerate(params)}
+        allkw = new_kw + node.keywords
+        allkw.sort(key=lambda k: order.get(k.arg, len(order)))
+        node.args = []
+        node.keywords = allkw
+        return node
+
     def visit_Call(self, node):
         self.generic_visit(node)
+        node = self._keywordise(node)
         f = node.func
         # set(<generator>) / list(<generator>) -> comprehension
         if isinstance(f, ast.Name) and f.id in ("set", "list") and len(node.args) == 1 and not node.keywords and isinstance(node.args[0], ast.GeneratorExp) and f.id not in self.bound:
@@ -195,6 +226,43 @@ class ExprCanon(ast.NodeTransformer):
     visit_ListComp = visit_SetComp = visit_GeneratorExp = visit_DictComp = _comp
 
 
+_LIB_METHOD_NAMES = {"get", "append", "extend", "add", "update", "pop", "items", "keys", "values", "join", "split", "format", "copy", "index", "count", "insert", "remove",
+                     "replace", "strip", "lstrip", "rstrip", "startswith", "endswith", "lower", "upper", "read_text", "write_text", "exists", "mkdir", "glob", "visit", "generic_visit",
+                     "parse", "dump", "dumps", "loads", "load", "post", "json", "send", "recv", "close", "encode", "decode", "setdefault", "sort", "union", "difference"}
+
+
+def sig_from_table(table: Dict[str, list]):
+    """lookup(name, is_attribute_call) -> parameter names to bind positional arguments to, or None when the name is not
+    a unique repository function (or is also a common library method name)"""
+    def lookup(name: str, is_attr: bool):
+        ss = table.get(name)
+        if not ss or name in _LIB_METHOD_NAMES or name.startswith("__"):
+            return None
+        forms = {(tuple(x["pos"]), tuple(x["kwonly"]), x["vararg"], x.get("method", False), x.get("static", False)) for x in ss}
+        if len(forms) != 1:
+            return None
+        pos, kwonly, vararg, method, static = next(iter(forms))
+        if vararg:
+            return None
+        pos = list(pos)
+        if method and not static and pos and pos[0] in ("self", "cls"):
+            if not is_attr:
+                return None  # a method called by bare name: not this function
+            pos = pos[1:]
+        return pos
+    return lookup
+
+
+_pinned_sig_lookup = None
+
+
+def _pinned_sigs(name: str, is_attr: bool):
+    global _pinned_sig_lookup
+    if _pinned_sig_lookup is None:
+        _pinned_sig_lookup = sig_from_table(pinned().get("sigs", {}))
+    return _pinned_sig_lookup(name, is_attr)
+
+
 def _pinned_const(name: str):
     c = pinned()["consts"]
     if name in c:
@@ -211,19 +279,46 @@ def canon_text(text: str) -> str:
     if not isinstance(text, str) or not text:
         return text
     consts = pinned()["consts"]
-    if not any(k in text for k in consts) and not any(tok in text for tok in (" if ", ".union(", ".difference(", ".intersection(", ".keys()", "isinstance(", " + ", "set(", "list(")):
+    if not any(k in text for k in consts) and not any(tok in text for tok in (" if ", ".union(", ".difference(", ".intersection(", ".keys()", "isinstance(", " + ", "set(", "list(")) and "(" not in text:
         return text
+    # pseudo calls of the interpreter (<elem>(it), <pre>(e, n, k), <setitem>(d, k, v), <setattr>(o, a, v)) are not Python:
+    # they are spelled as identifiers while the text is parsed and restored afterwards
+    pseudo = [(m, "_PSEUDO_" + m.strip("<>").upper() + "_") for m in ("<elem>", "<pre>", "<setitem>", "<setattr>", "<delitem>")]
+    ptext = text
+    for a, b in pseudo:
+        ptext = ptext.replace(a, b)
     for mode in ("eval", "exec"):
         try:
-            tree = ast.parse(text, mode=mode)
+            tree = ast.parse(ptext, mode=mode)
         except SyntaxError:
             continue
         if mode == "exec" and any(isinstance(st, ast.AnnAssign) and st.value is None for st in tree.body):
             break  # "KEY: value" fragments of a dict display parse as bare annotations
         try:
-            tree = ExprCanon(_pinned_const).visit(tree)
+            tree = ExprCanon(_pinned_const, sigs=_pinned_sigs).visit(tree)
             ast.fix_missing_locations(tree)
-            return " ".join(ast.unparse(tree).split())
+            res = " ".join(ast.unparse(tree).split())
+            for a, b in pseudo:
+                res = res.replace(b, a)
+            return res
+        except Exception:
+            break
+    # fragments: "elt for x in xs" / "a, b" -> [..]; "k: v" -> {..}; "a=1, b=2" -> f(..)
+    for pre, post, cut in (("[", "]", (1, -1)), ("{", "}", (1, -1)), ("_PSEUDO_F_(", ")", (len("_PSEUDO_F_("), -1))):
+        try:
+            tree = ast.parse(pre + ptext + post, mode="eval")
+        except SyntaxError:
+            continue
+        try:
+            tree = ExprCanon(_pinned_const, sigs=_pinned_sigs).visit(tree)
+            ast.fix_missing_locations(tree)
+            res = " ".join(ast.unparse(tree).split())
+            if not (res.startswith(pre) and res.endswith(post)):
+                continue
+            res = res[cut[0]:cut[1]]
+            for a, b in pseudo:
+                res = res.replace(b, a)
+            return res
         except Exception:
             break
     # not parseable (a prefix / fragment): textual folding of constant names
